@@ -398,13 +398,17 @@ def check(run):
         res_plan, res_rand, res_guard, res_format = fu_plan.result(), fu_rand.result(), fu_guard.result(), fu_format.result()
 
     # ---- (c) walker machines
-    if not (res_format.invariant_violated and 'Temporal' in res_format.invariant_violated):
+    m = res_format.stdout.find('Error: Temporal propert')
+    if m < 0:
         if not res_format.ok:
             raise core.MachineryError('TLC failed on FaultWalk/Faults_walk_format:\n' + res_format.stdout[-3000:])
         run.notes.append('walkers as the format implies: TLC found no lasso')
     else:
-        m = res_format.stdout.find('Error: Temporal')
-        run.extra['tlc_lasso'] = [ln for ln in res_format.stdout[m:m + 6000].splitlines() if ln.strip()][:60]
+        if 'states left on queue' not in res_format.stdout or res_format.invariant_violated:
+            raise core.MachineryError('TLC did not finish FaultWalk/Faults_walk_format:\n' + res_format.stdout[-3000:])
+        lasso = [ln for ln in res_format.stdout[m:].splitlines() if ln.strip()]
+        # the initial state (walker, n, faults) and the end of the lasso
+        run.extra['tlc_lasso'] = lasso[:16] + ['...'] + lasso[-22:-3]
     wits = minimal_witnesses(run.cases(res_format.out))
     run.extra['walker_guarded'] = {'states': res_guard.distinct, 'result': 'Halts and Linear hold'}
 
@@ -602,5 +606,4 @@ def replay(run, path):
         elif r['ctor'] == 'OK' and r['enum'] != 'ok':
             run.mismatch('terminate', mm['tag'] if mm['clause'] == 'terminate' else 'replay', c, 'the battery ends within the work bound',
                          '%s: reads=%d bytes=%d peak=%d' % (r['enum'], r['reads'], r['bytes'], r['peak']))
-    run.nontrivial.update(['replay-a', 'replay-b'])
     return run.finish()
